@@ -37,6 +37,8 @@ def jobs(pid, tier, seed):
         out.append({"kind": "classifier"})
     if pid == "C16":
         out += [{"kind": "crashimg", "seed": seed * 1000 + i} for i in range(16 if tier == "quick" else 200)]
+    if pid in ("C07", "C18"):
+        out += [{"kind": "bulk_list", "n": n, "allow_list": a} for n in (1010, 1200) for a in (1, 0)]
     if pid in ("C01", "C02"):
         out += [{"kind": "lazy", "n": n} for n in (0, 1, 2, 99, 100, 101, 250, 520)]
         out += [{"kind": "lazy", "seed": seed * 1000003 + 700000 + i} for i in range(200 if tier == "quick" else 4000)]
@@ -265,6 +267,71 @@ def run_lazy(pid, job, acc):
         ex.close()
 
 
+def run_bulk_list(pid, job, acc):
+    """More than a thousand live nameplates in one app (and a few in another): `list` names exactly the live ones of
+    the caller's app, each once (or nothing when listing is disallowed), before and after some are released."""
+    from ..engine import World, new_workdir, rmtree
+    cfg = Config(usage=False, allow_list=bool(job["allow_list"]))
+    wd = new_workdir("bulk")
+    w = World(wd, cfg, seed=job["n"], dump_every_step=False)
+    case = "bulk_list:%s" % sorted(job.items())
+    try:
+        w.start()
+        held = []
+        for i in range(job["n"]):
+            c = w.connect()
+            app = "app" if i % 50 else "app2"
+            name = "%05d" % i if i % 3 else "b%04d" % i
+            w.send(c.name, {"type": "bind", "appid": app, "side": "s%d" % (i % 2)})
+            w.send(c.name, {"type": "claim", "nameplate": name})
+            if app == "app":
+                held.append((c.name, name))
+            w.drop(c.name)
+        problems = []
+
+        def listed(app):
+            c = w.connect()
+            w.send(c.name, {"type": "bind", "appid": app, "side": "lister"})
+            st = w.send(c.name, {"type": "list"})
+            fr = [f for cn, f in st.frames if f.get("type") == "nameplates"]
+            w.drop(c.name)
+            if len(fr) != 1:
+                problems.append("list not answered by one nameplates frame: %r" % [f.get("type") for _, f in st.frames])
+                return []
+            return [x.get("id") for x in fr[0]["nameplates"]]
+
+        def stored(app):
+            return sorted(r["name"] for r in w.dump()["nameplates"].values() if r["app_id"] == app)
+
+        for round_ in range(2):
+            got = listed("app")
+            exp = stored("app") if cfg.allow_list else []
+            acc.ev["list_answer"] += 1
+            acc.ev["bulk_list_names_compared"] += len(exp)
+            if sorted(got) != exp:
+                problems.append("list names %d nameplates, %d are live (missing e.g. %r, extra e.g. %r)"
+                                % (len(got), len(exp), sorted(set(exp) - set(got))[:3], sorted(set(got) - set(exp))[:3]))
+            if round_ == 0:
+                if len(stored("app")) != len(held):
+                    problems.append("stored nameplates %d, held %d" % (len(stored("app")), len(held)))
+                for (cn, name) in held[::97]:
+                    c = w.connect()
+                    w.send(c.name, {"type": "bind", "appid": "app", "side": "s%d" % (int(name[1:]) % 2)})
+                    w.send(c.name, {"type": "release", "nameplate": name})
+                    w.drop(c.name)
+        acc.cases += 1
+        acc.distinct.add(case)
+        acc.steps += w.counters["steps"]
+        acc.frames += w.counters["frames"]
+        if problems:
+            acc.add_violation({"property": pid, "kind": "bulk_list", "case": case, "job": job,
+                               "violation": {"props": ["C07", "C18"], "kind": "list with more than a thousand live nameplates",
+                                             "detail": {"problems": problems[:4]}, "step": None}})
+    finally:
+        w.close()
+        rmtree(wd)
+
+
 def new_workdir_root():
     from ..engine import scratch_root
     return scratch_root()
@@ -275,6 +342,8 @@ def run_job(pid, job, acc):
         return run_wire_closing(pid, job, acc)
     if job["kind"] == "lazy":
         return run_lazy(pid, job, acc)
+    if job["kind"] == "bulk_list":
+        return run_bulk_list(pid, job, acc)
     if job["kind"] == "classifier":
         return run_classifier_product(acc)
     if job["kind"] == "crashimg":
@@ -303,6 +372,10 @@ def replay(pid, rep):
     if rep.get("kind") == "lazy":
         acc = Acc(pid)
         run_lazy(pid, rep["job"], acc)
+        return acc
+    if rep.get("kind") == "bulk_list":
+        acc = Acc(pid)
+        run_bulk_list(pid, rep["job"], acc)
         return acc
     if rep.get("kind") == "classifier":
         acc = Acc(pid)
